@@ -9,7 +9,12 @@ wt=/tmp/seed-$tag
 git -C /repo worktree remove --force $wt 2>/dev/null || true
 rm -rf $wt $wt-out
 git -C /repo worktree add --detach $wt HEAD -q
-git -C $wt apply $V/seeded/$tag/patch.diff
+if ! git -C $wt apply $V/seeded/$tag/patch.diff 2>/dev/null && ! git -C $wt apply --3way $V/seeded/$tag/patch.diff 2>/dev/null; then
+  echo "$tag APPLY-FAILED (the code it changes was repaired by a later fix commit)"
+  git -C /repo worktree remove --force $wt 2>/dev/null || true
+  rm -rf $wt $wt-out; git -C /repo worktree prune
+  exit 0
+fi
 (cd $wt/python && /venv/bin/python setup.py build_ext --inplace -q >/dev/null 2>&1)
 mkdir -p $wt-out
 cp $V/seeded/$tag/patch.diff $V/seeded/$tag/demo.py $V/seeded/$tag/meta.json $wt-out/
